@@ -12,7 +12,9 @@ Gate 3 (property oracle, Python big integers, independent of the model): the exa
         constant coefficient) within the explicit gadget-product bound computed from the dumped
         key: sum_{r,i} n 2^{dsize b} |E_{r,i}|_inf  + radix-conversion / truncation / output-rounding units.
         The key rows themselves are checked to be encryptions of s_i 2^{-(r+1) dsize b}.
-Extra: `dirty=1` runs (scratch arena pre-filled with garbage) must give the same bits as `dirty=0`.
+Extra: `dirty=1` runs (scratch arena pre-filled with garbage) must give the same bits as `dirty=0`
+        (this gate found the un-zeroed res_dft of the fused automorphism forms for dsize >= 3, repaired in
+        poulpy d3c2e96; a regression is reported under the key STALE_KEY).
 Failure search: the oracle runs on the implementation's own input/output; a case where the
         implementation breaks the bound (or depends on scratch garbage) is the failing input.
 """
@@ -159,6 +161,7 @@ def sout_of(c):
 def model_line(cid, c, ans, big):
     return (f"{cid} ks op={c['op']} big={big} n={c['n']} bin={c['bin']} bkey={c['bkey']} bout={c['bout']} sout={sout_of(c)} "
             f"rin={c['rin']} rout={c['rout']} dsize={c['dsize']} skip={c['skip']} idx={c['idx']} nlin={c['nlin']} nlout={c['nlout']} "
+            f"dft0={(cid % 3) * 12345} "
             f"keys={ans['keys']} a={ans['a']}")
 
 
